@@ -101,4 +101,6 @@ func genC07(tier string, rng *Rng) {
 		runOp([]string{"normpath", s})
 		runOp([]string{"cleanpath", s})
 	}
+	// the path the static file handler serves from (path rewriters, Host header, the handler over a real tree)
+	genC07fs(tier, rng)
 }
